@@ -82,6 +82,10 @@ def first_key_stress(rng):
         docs.append({k: {"n": [1, 2]}})
         docs.append([{k: "v"}])
     docs += [{}, [], [[]], [{}], {"a": {}}, {"a": []}, [1], ["s"], [None], [[1, 2], [3]], {"a": 1, "b": [True, None, 1.5, "s"]}]
+    # roots at the boundaries of MessagePack's header widths (fix / 16-bit / 32-bit length)
+    for n in (15, 16, 65535, 65536):
+        docs.append([0] * n)
+        docs.append({"k%d" % i: 0 for i in range(n)})
     return docs
 
 
